@@ -102,7 +102,7 @@ def layout_product_cases(rulesets, group=16):
 
 
 def lt05_product_cases(rulesets=("LT05", "all"), group=16):
-    """Multi-line files (every ordered triple of 4 statements, some carrying inline / block comments, long
+    """Multi-line files (every ordered triple of 5 statements, some carrying inline / block / multi-line block comments, long
     identifiers) x LT05's two comment options x max_line_length {30, 50}: long lines with comments that move
     when the lines above them are broken, so the fix needs several passes."""
     import itertools
@@ -112,6 +112,7 @@ def lt05_product_cases(rulesets=("LT05", "all"), group=16):
         "SELECT a FROM t; -- a trailing comment here",
         "SELECT a + b AS x, -- keep me\n    a FROM t;",
         "SELECT a, b FROM t WHERE a = 1; /* c */",
+        "SELECT a, b FROM t WHERE b = 2; /* this one\nis documented afterwards */",
     ]
     files = sorted({long_names("\n".join(tr) + "\n") for tr in itertools.product(stmts, repeat=3)})
     out = []
